@@ -27,6 +27,7 @@ func C06(c *Ctx) {
 	r.Rule("C06-d", "with LeftRecursion: under Memoize a left-recursive rule is never routed through the rule memo (a memoised first failure would be replayed on every growth step), and expression memoisation is off inside such rules")
 	r.Rule("C06-e", "an expression is answered from the memo table only if what its evaluation does is determined by the node and the offset: a kind whose evaluator stores into the label scope of its caller (a labelled expression binds its label there) or runs a code block on that scope without evaluating an operand of its own first (the code predicates: the labels they read were bound by an enclosing sequence that may have started elsewhere) is excluded from the lookup in parseExprWrap")
 	r.Rule("C06-f", "errList.add appends every error it is given: which errors are reported does not depend on how many were recorded before (re-evaluations add duplicates that only dedupe removes, so a cap or filter in add makes the result depend on Memoize)")
+	r.Rule("C06-h", "a memo entry that is found is the answer: in parseExprWrap and parseRuleMemoize every path on which the lookup succeeded returns without evaluating, and every path that evaluates after a lookup assumes exactly that the lookup missed - no further condition decides whether a hit is used (a hit ignored under some condition re-evaluates the expression at that offset every time: the bound of one evaluation per expression and offset is lost)")
 	r.Rule("C06-w", "configuration flags are assigned only by their option function (and newParser defaults): memoize, debug, recover, allowInvalidUTF8, maxExprCnt, entrypoint")
 
 	abs := c.allAbs()
@@ -51,6 +52,7 @@ func C06(c *Ctx) {
 		c06c(c, a.V)
 		c06d(c, a)
 		c06e(c, a.V)
+		c06h(c, a.V)
 		errListKeepsAll(c, a.V, "C06-f")
 	}
 	r.Min("non-optimized variants", 8, n)
@@ -781,4 +783,41 @@ func typeSwitchOperand(ts *ast.TypeSwitchStmt) string {
 		return nospace(ta.X)
 	}
 	return ""
+}
+
+// c06h (C06-h): a found memo entry is used unconditionally.
+func c06h(c *Ctx, v *variants.Variant) {
+	r := c.R
+	for _, it := range []struct{ fn, eval string }{{"parseExprWrap", "parseExpr"}, {"parseRuleMemoize", "parseRule"}} {
+		fd := v.Func("parser", it.fn)
+		if fd == nil {
+			continue
+		}
+		rv := recvName(fd)
+		paths := c.vnorm(v).without(it.eval, "restore", "getMemoized", "setMemoized", "printIndent", "sliceFrom", "pushV", "popV").normPaths(fd)
+		var bad []string
+		nLook := 0
+		for _, p := range paths {
+			iLook := p.evIndex("call", 0, func(t string) bool { return strings.HasPrefix(t, rv+".getMemoized(") })
+			if iLook < 0 {
+				continue
+			}
+			nLook++
+			hit := "res1(" + p[iLook].Text + ")"
+			iEval := p.evIndex("call", iLook, func(t string) bool { return strings.HasPrefix(t, rv+"."+it.eval+"(") })
+			after := p[iLook:]
+			switch {
+			case after.holds(hit) && iEval >= 0:
+				bad = append(bad, "a path evaluates although the lookup succeeded ["+abbreviate(strings.Join(after.facts(), " "))+"]")
+			case iEval >= 0 && !after.holds("!"+hit):
+				bad = append(bad, "whether a found entry is used depends on more than the lookup: the evaluation runs under ["+abbreviate(strings.Join(p[iLook:iEval].facts(), " "))+"], not exactly when the lookup missed")
+			case iEval < 0 && !after.holds(hit):
+				bad = append(bad, "a path neither uses a found entry nor evaluates ["+abbreviate(strings.Join(after.facts(), " "))+"]")
+			}
+		}
+		if nLook == 0 {
+			bad = append(bad, "no path with a memo lookup found")
+		}
+		r.Check(len(bad) == 0, "C06-h", "T."+it.fn+":found-entry-is-the-answer", v.Name, v.Where(fd.Pos()), fmt.Sprintf("%d paths with a lookup: a hit returns without evaluating, an evaluation assumes exactly a miss", nLook), strings.Join(uniq(bad), "; "))
+	}
 }
